@@ -26,6 +26,7 @@ type Op struct {
 	B      int    `json:"b,omitempty"`
 	Key    []byte `json:"key,omitempty"`
 	Val    []byte `json:"val,omitempty"`
+	NilVal bool   `json:"nilval,omitempty"` // the value handed to Put is the nil slice (not an empty non-nil one)
 	Prefix []byte `json:"prefix,omitempty"`
 	Start  []byte `json:"start,omitempty"`
 	Flag   bool   `json:"flag,omitempty"`
@@ -63,6 +64,17 @@ func (o Out) String() string {
 		return fmt.Sprintf("num(%d)", o.Num)
 	}
 	return "?"
+}
+
+// val is the slice handed to Put: nil when NilVal, otherwise non-nil (possibly empty); a JSON round trip (replay) keeps the difference
+func (o Op) val() []byte {
+	if o.NilVal {
+		return nil
+	}
+	if o.Val == nil {
+		return []byte{}
+	}
+	return o.Val
 }
 
 func coqB(b int) string { return hlib.CoqBool(b == 1) }
@@ -132,6 +144,27 @@ func (o Out) Coq() string {
 type backend struct {
 	name string
 	open func(dir string) (ethdb.Database, func())
+	// table configurations: the table is opened over an inner database pre-loaded with foreign keys
+	openTable func(dir string, pre []kv) (tbl ethdb.Database, inner ethdb.Database, cl func())
+}
+
+type kv struct{ K, V []byte }
+
+const tablePrefix = "tbl"
+
+// foreign keys around the table's prefix: they must stay invisible through it and untouched by it
+var foreignPool = []kv{{[]byte("t"), []byte{1}}, {[]byte("tbk"), []byte{2}}, {[]byte("tbm"), []byte{3}}, {[]byte("u"), []byte{4}},
+	{[]byte("tb"), []byte{5}}, {[]byte("tbk\xff"), []byte{}}, {[]byte{0}, []byte{6}}, {[]byte{1}, []byte{7}}, {[]byte{1, 0}, []byte{8}},
+	{[]byte{0xff, 0xff}, []byte{9}}, {[]byte("tbm\x00"), []byte("x")}, {[]byte("Tbl"), []byte("case")}, {[]byte("tbL\x01"), []byte{10}}, {[]byte("a"), []byte{11}}}
+
+func foreignFor(hi int) []kv {
+	pre := append([]kv{}, foreignPool[:4]...)
+	for j := 4; j < len(foreignPool); j++ {
+		if (hi>>(uint(j-4)%8))&1 == 1 || hi%len(foreignPool) == j {
+			pre = append(pre, foreignPool[j])
+		}
+	}
+	return pre
 }
 
 func backends() []backend {
@@ -157,20 +190,18 @@ func backends() []backend {
 		db := rawdb.NewMemoryDatabase(logger)
 		return db, func() { db.Close() }
 	}
-	table := func(inner func(string) (ethdb.Database, func())) func(string) (ethdb.Database, func()) {
-		return func(dir string) (ethdb.Database, func()) {
+	table := func(inner func(string) (ethdb.Database, func())) func(string, []kv) (ethdb.Database, ethdb.Database, func()) {
+		return func(dir string, pre []kv) (ethdb.Database, ethdb.Database, func()) {
 			db, cl := inner(dir)
-			// foreign keys around the table's prefix must stay invisible through it
-			db.Put([]byte("t"), []byte{1})
-			db.Put([]byte("tbk"), []byte{2})
-			db.Put([]byte("tbm"), []byte{3})
-			db.Put([]byte("u"), []byte{4})
-			return rawdb.NewTable(db, "tbl", loc, logger), cl
+			for _, e := range pre {
+				must(db.Put(e.K, e.V))
+			}
+			return rawdb.NewTable(db, tablePrefix, loc, logger), db, cl
 		}
 	}
 	return []backend{
-		{"leveldb", lv}, {"pebble", pb}, {"memorydb", mem},
-		{"table/leveldb", table(lv)}, {"table/pebble", table(pb)}, {"table/memorydb", table(mem)},
+		{"leveldb", lv, nil}, {"pebble", pb, nil}, {"memorydb", mem, nil},
+		{"table/leveldb", nil, table(lv)}, {"table/pebble", nil, table(pb)}, {"table/memorydb", nil, table(mem)},
 	}
 }
 
@@ -183,7 +214,7 @@ func runReal(db ethdb.Database, h []Op) []Out {
 		var r Out
 		switch o.K {
 		case "DbPut":
-			must(db.Put(o.Key, o.Val))
+			must(db.Put(o.Key, o.val()))
 			r = Out{Kind: "none"}
 		case "DbDel":
 			must(db.Delete(o.Key))
@@ -230,7 +261,7 @@ func runReal(db ethdb.Database, h []Op) []Out {
 			must(it.Error())
 			it.Release()
 		case "BPut":
-			must(bs[o.B].Put(o.Key, o.Val))
+			must(bs[o.B].Put(o.Key, o.val()))
 			r = Out{Kind: "none"}
 		case "BDel":
 			must(bs[o.B].Delete(o.Key))
@@ -412,9 +443,29 @@ func outEq(a, b Out) bool {
 	return true
 }
 
+func kvsEq(a, b []kv) bool {
+	if len(a) != len(b) {
+		return false
+	}
+	for i := range a {
+		if !bytes.Equal(a[i].K, b[i].K) || !bytes.Equal(a[i].V, b[i].V) {
+			return false
+		}
+	}
+	return true
+}
+func showKVs(l []kv) string {
+	var sb strings.Builder
+	for _, e := range l {
+		fmt.Fprintf(&sb, "%x=%x,", e.K, e.V)
+	}
+	return "[" + sb.String() + "]"
+}
+
 // ---------- generator ----------
 
-var alphabet = [][]byte{{}, {0}, {1}, {1, 0}, {1, 1}, {1, 255}, {2}, {255}, {255, 255}, {1, 1, 1}, {0, 0}, {'a'}, {'a', 'b'}}
+// (the last four are made of the bytes of the table prefix "tbl": user keys that look like the prefix, or like a part of it)
+var alphabet = [][]byte{{}, {0}, {1}, {1, 0}, {1, 1}, {1, 255}, {2}, {255}, {255, 255}, {1, 1, 1}, {0, 0}, {'a'}, {'a', 'b'}, {'t'}, {'b', 'l'}, {'t', 'b', 'l'}, {'l', 1}}
 
 func genKey(r *hlib.Rng) []byte {
 	switch r.Pick(6, 3, 1) {
@@ -454,9 +505,17 @@ func genVal(r *hlib.Rng) []byte {
 func genHistory(r *hlib.Rng, n int) []Op {
 	h := make([]Op, 0, n)
 	var spent [2]bool
+	// A third of the histories put EMPTY values (nil slice or empty non-nil slice) into tracked batches: a tracked batch must
+	// report such a put as a pending entry with empty data (every backend copies the value into a non-nil slice), so that the
+	// caller does not fall through to an older committed value. These histories never replay a batch into a batch: on that
+	// path leveldb hands the replayed empty value over as nil (see case 5 below), which is outside the pending contract.
+	emptyPend := r.Chance(33)
 	for i := 0; i < n; i++ {
 		b := r.Intn(2)
 		k := r.Pick(8, 4, 8, 3, 6, 14, 8, 4, 12, 0, 4, 1, 2, 2, 3, 4) // ValueSize (9) is a sizing heuristic, not part of the contract: never generated
+		if emptyPend && k == 13 {
+			k = 8
+		}
 		if spent[b] && (k == 5 || k == 6 || k == 10 || k == 12 || k == 13) {
 			k = 11 // Reset first
 		}
@@ -471,7 +530,8 @@ func genHistory(r *hlib.Rng, n int) []Op {
 		}
 		switch k {
 		case 0:
-			h = append(h, Op{K: "DbPut", Key: genKey(r), Val: genVal(r)})
+			v := genVal(r)
+			h = append(h, Op{K: "DbPut", Key: genKey(r), Val: v, NilVal: len(v) == 0 && r.Chance(50)})
 		case 1:
 			h = append(h, Op{K: "DbDel", Key: genKey(r)})
 		case 2:
@@ -493,10 +553,13 @@ func genHistory(r *hlib.Rng, n int) []Op {
 			// an absent one through GetPending (leveldb even returns nil for an empty value that went through
 			// Replay): empty values are outside the pending contract and are only generated for direct puts
 			v := genVal(r)
-			if len(v) == 0 {
+			if emptyPend && r.Chance(25) {
+				v = []byte{}
+			}
+			if len(v) == 0 && !emptyPend {
 				v = []byte{0}
 			}
-			h = append(h, Op{K: "BPut", B: b, Key: genKey(r), Val: v})
+			h = append(h, Op{K: "BPut", B: b, Key: genKey(r), Val: v, NilVal: len(v) == 0 && r.Chance(50)})
 		case 6:
 			h = append(h, Op{K: "BDel", B: b, Key: genKey(r)})
 		case 7:
@@ -539,6 +602,27 @@ type caseJS struct {
 	Backend string `json:"backend"`
 	History []Op   `json:"history"`
 	Outs    []Out  `json:"outs"`
+	Pre     []kv   `json:"pre,omitempty"`       // table configurations: foreign keys pre-loaded into the inner database
+	Inner   []kv   `json:"inner_end,omitempty"` // table configurations: full scan of the inner database after the history
+}
+
+func scanAll(db ethdb.Database) []kv {
+	var l []kv
+	it := db.NewIterator(nil, nil)
+	for it.Next() {
+		l = append(l, kv{cp(it.Key()), cp(it.Value())})
+	}
+	must(it.Error())
+	it.Release()
+	return l
+}
+
+func coqKVs(l []kv) string {
+	items := make([]string, len(l))
+	for i, e := range l {
+		items[i] = hlib.CoqPair(hlib.CoqBytes(e.K), hlib.CoqBytes(e.V))
+	}
+	return hlib.CoqList(items)
 }
 
 func main() {
@@ -546,7 +630,7 @@ func main() {
 	rng := hlib.NewRng(f.Seed)
 	rep := hlib.NewReport("C17", "lock-step random histories (1..400 ops, small key alphabet with shared prefixes, empty values) on 6 backend configurations; "+
 		"a case is one (backend, history); non-trivial = history contains a batch write/replay into the store or a pending lookup that hits; distinct by history hash")
-	cw := hlib.NewCaseWriter(f.Out, "From Coq Require Import List NArith Bool.\nFrom GQ Require Import Lib.Key Lib.SMap Model.C17.\nImport ListNotations.\nLocal Open Scope N_scope.\n", "C17.case", 60)
+	cw := hlib.NewCaseWriter(f.Out, "From Coq Require Import List NArith Bool.\nFrom GQ Require Import Lib.Key Lib.SMap Model.C17 Model.C17_Table Model.C17_All.\nImport ListNotations.\nLocal Open Scope N_scope.\n", "C17_All.case", 60)
 	bks := backends()
 	tmp, _ := os.MkdirTemp("", "verif-c17-")
 	defer os.RemoveAll(tmp)
@@ -599,7 +683,26 @@ func main() {
 			{K: "BGetPending", B: 1, Key: ka}, {K: "BGetPending", B: 1, Key: kb},
 			{K: "BReset", B: 0}, {K: "BPut", B: 0, Key: kc, Val: []byte("XXXXXX")}, {K: "BPut", B: 0, Key: ka, Val: []byte("YYYYYY")},
 			{K: "BGetPending", B: 1, Key: ka}, {K: "BGetPending", B: 1, Key: kb}, {K: "BWrite", B: 1}, {K: "DbGet", Key: ka}, {K: "DbHas", Key: kb}}
-		return [][]Op{h1, h2, h3, h4, h5}
+		// empty values in a tracked batch (nil slice and empty non-nil slice), over an older committed value and without one
+		var h6 []Op
+		h6 = append(h6, Op{K: "DbPut", Key: kc, Val: []byte("old-c")}, Op{K: "DbPut", Key: ka, Val: []byte{}, NilVal: true}, Op{K: "DbGet", Key: ka}, Op{K: "DbHas", Key: ka})
+		for b := 0; b < 2; b++ {
+			h6 = append(h6, Op{K: "BSetPending", B: b, Flag: true},
+				Op{K: "BPut", B: b, Key: ka, Val: []byte{}, NilVal: true}, Op{K: "BGetPending", B: b, Key: ka},
+				Op{K: "BPut", B: b, Key: kb, Val: []byte{}}, Op{K: "BGetPending", B: b, Key: kb},
+				Op{K: "BPut", B: b, Key: kc, Val: []byte{}, NilVal: true}, Op{K: "BGetPending", B: b, Key: kc}, Op{K: "DbGet", Key: kc},
+				Op{K: "BWrite", B: b}, Op{K: "DbGet", Key: ka}, Op{K: "DbHas", Key: kb}, Op{K: "DbGet", Key: kc}, Op{K: "DbIter", Prefix: []byte{}, Start: []byte{}},
+				Op{K: "BReset", B: b}, Op{K: "DbPut", Key: kc, Val: []byte("old-c")}, Op{K: "DbDel", Key: ka}, Op{K: "DbDel", Key: kb})
+		}
+		// user keys made of the bytes of the table prefix, iterated and replayed
+		var h7 []Op
+		for _, k := range [][]byte{[]byte("t"), []byte("tb"), []byte("tbl"), []byte("tblx"), []byte("l"), []byte("b"), []byte("lbt"), []byte("x")} {
+			h7 = append(h7, Op{K: "BPut", B: 0, Key: k, Val: append([]byte("v-"), k...)})
+		}
+		h7 = append(h7, Op{K: "BReplayB", B: 0}, Op{K: "BReplayDb", B: 1}, Op{K: "DbIter", Prefix: []byte{}, Start: []byte{}}, Op{K: "DbIter", Prefix: []byte("t"), Start: []byte("b")},
+			Op{K: "BReset", B: 1}, Op{K: "BDel", B: 1, Key: []byte("tb")}, Op{K: "BDel", B: 1, Key: []byte("l")}, Op{K: "BReplayDb", B: 1}, Op{K: "DbIter", Prefix: []byte{}, Start: []byte{}},
+			Op{K: "DbGet", Key: []byte("tbl")}, Op{K: "DbHas", Key: []byte("b")})
+		return [][]Op{h1, h2, h3, h4, h5, h6, h7}
 	}
 	if f.Replay == "" {
 		histories = append(histories, corpus()...)
@@ -635,17 +738,52 @@ func main() {
 		rep.Count(fmt.Sprintf("len:%d0s", len(h)/10))
 		var first []Out
 		for bi, bk := range bks {
-			db, closeFn := bk.open(tmp)
+			var db, inner ethdb.Database
+			var closeFn func()
+			var pre, innerEnd, tableEnd []kv
+			if bk.openTable != nil {
+				pre = foreignFor(hi)
+				db, inner, closeFn = bk.openTable(tmp, pre)
+			} else {
+				db, closeFn = bk.open(tmp)
+			}
 			got := runReal(db, h)
+			if inner != nil {
+				innerEnd = scanAll(inner)
+				tableEnd = scanAll(db)
+			}
 			closeFn()
 			rep.Evaluations++
 			rep.TracesValidated++
-			c := caseJS{ID: id, Backend: bk.name, History: h, Outs: got}
+			c := caseJS{ID: id, Backend: bk.name, History: h, Outs: got, Pre: pre, Inner: innerEnd}
 			pairs := make([]string, len(h))
 			for i := range h {
 				pairs[i] = "(" + h[i].Coq() + ", " + got[i].Coq() + ")"
 			}
-			cw.Add(fmt.Sprintf("(%d, %s)", id, hlib.CoqList(pairs)), c)
+			if inner != nil {
+				cw.Add(fmt.Sprintf("CTable (%d, (%s, %s, %s, %s))", id, hlib.CoqBytes([]byte(tablePrefix)), coqKVs(pre), hlib.CoqList(pairs), coqKVs(innerEnd)), c)
+				rep.Count(fmt.Sprintf("table-foreign-keys:%d", len(pre)))
+				// monitor 3 (frame, model-independent): the inner database holds the pre-loaded foreign keys unchanged, and under
+				// the prefix exactly what the table itself iterates (keys stripped), in ascending byte order
+				var foreignNow, own []kv
+				for _, e := range innerEnd {
+					if bytes.HasPrefix(e.K, []byte(tablePrefix)) {
+						own = append(own, kv{e.K[len(tablePrefix):], e.V})
+					} else {
+						foreignNow = append(foreignNow, e)
+					}
+				}
+				want := append([]kv{}, pre...)
+				sort.Slice(want, func(a, b int) bool { return bytes.Compare(want[a].K, want[b].K) < 0 })
+				if !kvsEq(foreignNow, want) {
+					rep.Fail(fmt.Sprintf("backend=%s table-frame", bk.name), fmt.Sprintf("after the history the inner database's keys outside the table prefix are %s, pre-loaded were %s", showKVs(foreignNow), showKVs(want)), c)
+				}
+				if !kvsEq(own, tableEnd) {
+					rep.Fail(fmt.Sprintf("backend=%s table-view", bk.name), fmt.Sprintf("the inner database holds under the prefix %s but the table iterates %s", showKVs(own), showKVs(tableEnd)), c)
+				}
+			} else {
+				cw.Add(fmt.Sprintf("CStore (%d, %s)", id, hlib.CoqList(pairs)), c)
+			}
 			if nontriv {
 				rep.Nontrivial(fmt.Sprintf("%s/%d", bk.name, hi))
 			}
